@@ -4,7 +4,7 @@
    computed; the same checks run on fresh objects in every check. *)
 From Coq Require Import List ZArith NArith Bool Arith PrimFloat.
 Import ListNotations.
-From I2N Require Import Model.Retry Model.Graph Model.Traverse Model.TraverseRun Proofs.TraverseExcl Proofs.TraverseUid Proofs.TraverseAvail Proofs.TraverseExit Proofs.TraversePresent Proofs.TraverseKeep Proofs.TraverseExitN Proofs.TraverseDefinite Check.Graph.
+From I2N Require Import Model.Retry Model.Graph Model.Traverse Model.TraverseRun Proofs.TraverseExcl Proofs.TraverseUid Proofs.TraverseAvail Proofs.TraverseExit Proofs.TraversePresent Proofs.TraverseKeep Proofs.TraverseExitN Proofs.TraverseDefinite Proofs.TraverseSrc Check.Graph.
 Local Open Scope nat_scope.
 
 Definition nv_pgraph : pgraph := [(mkGNode 1%N 2%N 3%N (Some 4%N) false false None [4%nat; 5%nat] [(mkGObj 5%N true None None false); (mkGObj 6%N false None None false); (mkGObj 7%N false (Some 8%N) None false); (mkGObj 9%N false None None false); (mkGObj 10%N false None (Some 11%N) false); (mkGObj 12%N false (Some 13%N) None true); (mkGObj 14%N false None None true)] [15%N; 16%N; 17%N] [15%N; 16%N; 17%N] [(1%nat, [7%N]); (2%nat, [10%N])] [] [12%nat] 18%N []); (mkGNode 19%N 20%N 21%N (Some 4%N) false false None [] [(mkGObj 5%N true None None false); (mkGObj 6%N false None None false); (mkGObj 7%N false (Some 22%N) (Some 8%N) false)] [15%N] [15%N] [(10%nat, [7%N])] [(0%nat, [7%N]); (4%nat, [7%N]); (5%nat, [7%N])] [13%nat] 23%N []); (mkGNode 24%N 25%N 26%N (Some 4%N) false false None [] [(mkGObj 5%N true None None false); (mkGObj 6%N false None None false); (mkGObj 7%N false (Some 27%N) None false); (mkGObj 9%N false None None false); (mkGObj 10%N false (Some 28%N) (Some 29%N) false)] [15%N; 16%N] [15%N; 16%N] [(6%nat, [7%N]); (7%nat, [10%N])] [(0%nat, [10%N]); (4%nat, [10%N])] [14%nat] 30%N []); (mkGNode 31%N 32%N 33%N (Some 4%N) false false None [] [(mkGObj 5%N true None None false); (mkGObj 6%N false None None false); (mkGObj 7%N false (Some 27%N) None false); (mkGObj 9%N false None None false); (mkGObj 10%N false (Some 28%N) (Some 34%N) false)] [15%N; 16%N] [15%N; 16%N] [(6%nat, [7%N]); (7%nat, [10%N])] [(5%nat, [10%N])] [15%nat] 35%N []); (mkGNode 36%N 37%N 38%N (Some 4%N) false false None [] [(mkGObj 5%N true None None false); (mkGObj 6%N false None None false); (mkGObj 7%N false (Some 8%N) None false); (mkGObj 9%N false None None false); (mkGObj 10%N false (Some 29%N) (Some 39%N) false); (mkGObj 12%N false (Some 13%N) None true); (mkGObj 14%N false None None true)] [15%N; 16%N; 17%N] [15%N; 16%N; 17%N] [(1%nat, [7%N]); (2%nat, [10%N])] [] [16%nat] 40%N []); (mkGNode 41%N 42%N 43%N (Some 4%N) false false None [] [(mkGObj 5%N true None None false); (mkGObj 6%N false None None false); (mkGObj 7%N false (Some 8%N) None false); (mkGObj 9%N false None None false); (mkGObj 10%N false (Some 34%N) (Some 44%N) false); (mkGObj 12%N false (Some 13%N) None true); (mkGObj 14%N false None None true)] [15%N; 16%N; 17%N] [15%N; 16%N; 17%N] [(1%nat, [7%N]); (3%nat, [10%N])] [] [17%nat] 45%N []); (mkGNode 46%N 47%N 48%N (Some 4%N) false false None [] [(mkGObj 5%N true None None false); (mkGObj 6%N false None None false); (mkGObj 7%N false (Some 22%N) (Some 27%N) false)] [15%N] [15%N] [(10%nat, [7%N])] [(3%nat, [7%N]); (2%nat, [7%N])] [18%nat] 49%N []); (mkGNode 50%N 51%N 52%N (Some 4%N) false false None [] [(mkGObj 5%N true None None false); (mkGObj 9%N false None None false); (mkGObj 10%N false (Some 22%N) (Some 28%N) false)] [16%N] [16%N] [(8%nat, [10%N])] [(3%nat, [10%N]); (2%nat, [10%N])] [19%nat] 53%N []); (mkGNode 54%N 55%N 56%N (Some 4%N) false false None [] [(mkGObj 5%N true None None false); (mkGObj 9%N false None None false); (mkGObj 10%N false (Some 57%N) (Some 22%N) false)] [16%N] [16%N] [(9%nat, [10%N])] [(7%nat, [10%N])] [20%nat] 58%N []); (mkGNode 59%N 60%N 61%N (Some 4%N) false false (Some 10%N) [] [(mkGObj 5%N true None None false); (mkGObj 9%N false None None false); (mkGObj 10%N false None (Some 57%N) false)] [16%N] [16%N] [(24%nat, [10%N])] [(8%nat, [10%N])] [21%nat] 62%N []); (mkGNode 63%N 64%N 65%N (Some 4%N) false false None [] [(mkGObj 5%N true None None false); (mkGObj 6%N false None None false); (mkGObj 7%N false (Some 57%N) (Some 22%N) false)] [15%N] [15%N] [(11%nat, [7%N])] [(6%nat, [7%N]); (1%nat, [7%N])] [22%nat] 66%N []); (mkGNode 67%N 68%N 69%N (Some 4%N) false false (Some 7%N) [] [(mkGObj 5%N true None None false); (mkGObj 6%N false None None false); (mkGObj 7%N false None (Some 57%N) false)] [15%N] [15%N] [(24%nat, [7%N])] [(10%nat, [7%N])] [23%nat] 70%N []); (mkGNode 71%N 72%N 3%N (Some 73%N) false false None [16%nat; 17%nat] [(mkGObj 74%N true None None false); (mkGObj 6%N false None None false); (mkGObj 7%N false (Some 8%N) None false); (mkGObj 9%N false None None false); (mkGObj 10%N false None (Some 11%N) false); (mkGObj 12%N false (Some 13%N) None true); (mkGObj 14%N false None None true)] [15%N; 16%N; 17%N] [15%N; 16%N; 17%N] [(13%nat, [7%N]); (14%nat, [10%N])] [] [0%nat] 18%N []); (mkGNode 75%N 76%N 21%N (Some 73%N) false false None [] [(mkGObj 74%N true None None false); (mkGObj 6%N false None None false); (mkGObj 7%N false (Some 22%N) (Some 8%N) false)] [15%N] [15%N] [(22%nat, [7%N])] [(12%nat, [7%N]); (16%nat, [7%N]); (17%nat, [7%N])] [1%nat] 23%N []); (mkGNode 77%N 78%N 26%N (Some 73%N) false false None [] [(mkGObj 74%N true None None false); (mkGObj 6%N false None None false); (mkGObj 7%N false (Some 27%N) None false); (mkGObj 9%N false None None false); (mkGObj 10%N false (Some 28%N) (Some 29%N) false)] [15%N; 16%N] [15%N; 16%N] [(18%nat, [7%N]); (19%nat, [10%N])] [(12%nat, [10%N]); (16%nat, [10%N])] [2%nat] 30%N []); (mkGNode 79%N 80%N 33%N (Some 73%N) false false None [] [(mkGObj 74%N true None None false); (mkGObj 6%N false None None false); (mkGObj 7%N false (Some 27%N) None false); (mkGObj 9%N false None None false); (mkGObj 10%N false (Some 28%N) (Some 34%N) false)] [15%N; 16%N] [15%N; 16%N] [(18%nat, [7%N]); (19%nat, [10%N])] [(17%nat, [10%N])] [3%nat] 35%N []); (mkGNode 81%N 82%N 38%N (Some 73%N) false false None [] [(mkGObj 74%N true None None false); (mkGObj 6%N false None None false); (mkGObj 7%N false (Some 8%N) None false); (mkGObj 9%N false None None false); (mkGObj 10%N false (Some 29%N) (Some 39%N) false); (mkGObj 12%N false (Some 13%N) None true); (mkGObj 14%N false None None true)] [15%N; 16%N; 17%N] [15%N; 16%N; 17%N] [(13%nat, [7%N]); (14%nat, [10%N])] [] [4%nat] 40%N []); (mkGNode 83%N 84%N 43%N (Some 73%N) false false None [] [(mkGObj 74%N true None None false); (mkGObj 6%N false None None false); (mkGObj 7%N false (Some 8%N) None false); (mkGObj 9%N false None None false); (mkGObj 10%N false (Some 34%N) (Some 44%N) false); (mkGObj 12%N false (Some 13%N) None true); (mkGObj 14%N false None None true)] [15%N; 16%N; 17%N] [15%N; 16%N; 17%N] [(13%nat, [7%N]); (15%nat, [10%N])] [] [5%nat] 45%N []); (mkGNode 85%N 86%N 48%N (Some 73%N) false false None [] [(mkGObj 74%N true None None false); (mkGObj 6%N false None None false); (mkGObj 7%N false (Some 22%N) (Some 27%N) false)] [15%N] [15%N] [(22%nat, [7%N])] [(15%nat, [7%N]); (14%nat, [7%N])] [6%nat] 49%N []); (mkGNode 87%N 88%N 52%N (Some 73%N) false false None [] [(mkGObj 74%N true None None false); (mkGObj 9%N false None None false); (mkGObj 10%N false (Some 22%N) (Some 28%N) false)] [16%N] [16%N] [(20%nat, [10%N])] [(15%nat, [10%N]); (14%nat, [10%N])] [7%nat] 53%N []); (mkGNode 89%N 90%N 56%N (Some 73%N) false false None [] [(mkGObj 74%N true None None false); (mkGObj 9%N false None None false); (mkGObj 10%N false (Some 57%N) (Some 22%N) false)] [16%N] [16%N] [(21%nat, [10%N])] [(19%nat, [10%N])] [8%nat] 58%N []); (mkGNode 91%N 92%N 61%N (Some 73%N) false false (Some 10%N) [] [(mkGObj 74%N true None None false); (mkGObj 9%N false None None false); (mkGObj 10%N false None (Some 57%N) false)] [16%N] [16%N] [(24%nat, [10%N])] [(20%nat, [10%N])] [9%nat] 62%N []); (mkGNode 93%N 94%N 65%N (Some 73%N) false false None [] [(mkGObj 74%N true None None false); (mkGObj 6%N false None None false); (mkGObj 7%N false (Some 57%N) (Some 22%N) false)] [15%N] [15%N] [(23%nat, [7%N])] [(18%nat, [7%N]); (13%nat, [7%N])] [10%nat] 66%N []); (mkGNode 95%N 96%N 69%N (Some 73%N) false false (Some 7%N) [] [(mkGObj 74%N true None None false); (mkGObj 6%N false None None false); (mkGObj 7%N false None (Some 57%N) false)] [15%N] [15%N] [(24%nat, [7%N])] [(22%nat, [7%N])] [11%nat] 70%N []); (mkGNode 97%N 98%N 99%N None true true None [] [] [] [] [] [(9%nat, [10%N]); (11%nat, [7%N]); (21%nat, [10%N]); (23%nat, [7%N])] [] 100%N [])].
@@ -147,4 +147,14 @@ Example nv_definite :
   none_running_b (fst (run_schedule nv_graph (init_state nv_graph []) nv_sched)) = true /\
   forallb (fun k => negb (n_objroot (nd nv_graph k))) (class_of nv_graph 5) = true /\
   map r_status (shared_results nv_graph (fst (run_schedule nv_graph (init_state nv_graph []) nv_sched)) 5) = [SPass].
+Proof. vm_compute. repeat split. Qed.
+
+(* the hypotheses of C01_named_sources_hold_the_states are met: in the single-worker run the test t1 (node 1) is started
+   with worker 0 named as a source of the install state, which is unmarked and in worker 0's own pool *)
+Example nv_sources :
+  fw_ok_b nv_graph3 = true /\ fw_ok_b nv_graph = true /\
+  (let r := run_schedule nv_graph3 (init_state nv_graph3 []) [(0, None); (0, Some SPass); (0, Some SPass)] in
+   existsb (fun e => match e with EStart 0 1 _ false l => existsb (fun x => match snd x with Some 0 => true | _ => false end) l | _ => false end) (last (snd r) []) = true /\
+   has_state (pool (fst r)) (Some 0) (1%N, 1%N) = true) /\
+  unmarked_b nv_graph3 (1%N, 1%N) = true.
 Proof. vm_compute. repeat split. Qed.
